@@ -105,7 +105,31 @@ def main():
                         os.environ["JTIOSUE_QUBOVERT_VERIF_TRACE_MAX"] = str(c["trace_max"])
                 else:
                     os.environ.pop("JTIOSUE_QUBOVERT_VERIF_TRACE", None)
-                if c.get("warm"):
+                if c.get("warm_shrink") and c["kind"].endswith("Matrix") and any(k for k in d):
+                    # history: the SAME Matrix object was annealed while it still had a term on a much larger label (in place of
+                    # its last term); that term was then removed, the last term added, refresh() called: same number of terms,
+                    # fewer spins
+                    keys_ = [k for k in d if k]
+                    last_ = keys_[-1]
+                    top_ = max(x for k in keys_ for x in k) + 40
+                    pre = {k: v for k, v in d.items() if k != last_}
+                    pre[(top_,)] = 1
+                    model = classes[c["kind"]](pre)
+                    saved = os.environ.pop("JTIOSUE_QUBOVERT_VERIF_TRACE", None)
+                    try:
+                        with warnings.catch_warnings():
+                            warnings.simplefilter("ignore")
+                            kw_w = {k_: v_ for k_, v_ in kw_now().items() if k_ != "initial_state"}
+                            fns[c["fn"]](model, **kw_w)
+                    except Exception:          # noqa
+                        pass
+                    if saved is not None:
+                        os.environ["JTIOSUE_QUBOVERT_VERIF_TRACE"] = saved
+                    captured.clear()
+                    model[(top_,)] = 0
+                    model[last_] = d[last_]
+                    model.refresh()
+                elif c.get("warm"):
                     # history: the SAME object was annealed before with other coefficients (same keys), then edited in place
                     pre = {k: -2 * v for k, v in d.items()}
                     model = classes[c["kind"]](pre) if c["kind"] != "dict" else dict(pre)
